@@ -33,14 +33,17 @@ leave only at count zero: both pop_front sites of GlobalDeque::consume are on ed
 the decrement budget is the number of slices actually advanced, push_anchor zeroes the count (asserted) before
 queueing; clear drops slices and anchors together; (R5.8) chunk lifetime: Box::from_raw occurs only in
 <Chunk as Drop>::drop, every bump allocation returns an Anchor obtained from merge_ref_or_create(old,
-&self.backing) of the chunk it came from, after end - bump >= wanted was asserted.
+&self.backing) of the chunk it came from, after end - bump >= wanted was asserted; an Anchor's chunk is
+sticky (never written after construction, so a parked zero-count anchor keeps its chunk alive) and its count
+is written only by the three count methods; (R5.9) distinct allocations never overlap: allocation caches are
+never cloned or shared and the bump pointer has three writers (R20.1/R20.2 re-evaluated).
 NOT decided: that anchor counts equal the number of slices they cover after every history (value-level),
 non-overlap of allocations beyond the bump discipline.  Borrow witnesses W4-W7/W10: thorough tier.
 """
 
 ASSUMPTIONS = ['the borrow checker (for caller-provided buffers)', 'libc::iovec / IoSlice layout equality (compile-time assertion in the crate)']
 
-FLOORS = {'R5.1': 35, 'R5.2': 20, 'R5.3': 6, 'R5.4': 7, 'R5.6': 7, 'R5.7': 5, 'R5.8': 4}
+FLOORS = {'R5.1': 35, 'R5.2': 20, 'R5.3': 6, 'R5.4': 7, 'R5.6': 7, 'R5.7': 5, 'R5.8': 7, 'R5.9': 10}
 
 CRATES = ['owning_iovec', 'hcobs', 'rough_tlv', 'sliding_deque', 'vouched_time']
 
@@ -300,8 +303,55 @@ def r5_8(cx):
     same = [cs for cs in mr.calls(AN + '::is_same_chunk')]
     cx.check(okm and len(same) == 1, 'anchor-of-chunk', mr, None, 'a new Anchor clones the Arc of the chunk; an existing one is reused only if is_same_chunk',
              fail_detail='merge_ref_or_create does not tie the anchor to the allocating chunk')
+    # an anchor's chunk is sticky: set at construction, never re-pointed (a parked zero-count anchor keeps the
+    # chunk of the slices in front of it alive)
+    an = prog.adt(AN)
+    rewrites = []
+    for f in prog.fns.values():
+        if f.crate != 'owning_iovec' or f.d.get('derived'):
+            continue
+        for pos, pl, rv in f.stores():
+            if pl['p'] and pl['p'][-1]['k'] == 'field' and pl['p'][-1]['n'] == 'chunk' and pl['p'][-1].get('adt') == an['key']:
+                rewrites.append('%s at %s' % (short(f.name), f.loc(pos.bb, pos.idx)))
+        for cs in f.calls():
+            if (cs.callee.endswith('mem::swap') or cs.callee.endswith('mem::replace') or cs.callee.endswith('mem::take') or cs.callee.endswith('Option::replace')
+                    or cs.callee.endswith('Option::insert') or cs.callee.endswith('Option::take')) and \
+                    any(n.kind == 'proj' and n.info.get('n') == 'chunk' and n.info.get('adt') == an['key'] for a in cs.args() for n in a.walk()):
+                rewrites.append('%s via %s' % (short(f.name), short(cs.callee)))
+    cx.check(not rewrites, 'anchor-chunk-sticky', None, '%s:%s' % (an['file'], an['line']), 'Anchor.chunk is never written after construction',
+             fail_detail='an existing Anchor can be re-pointed to another chunk (%s): the chunk it was keeping alive is released under live slices' % rewrites)
+    # counts are only changed by the three count methods and merge_ref_or_create's +1 on the same chunk
+    cw = set()
+    for f in prog.fns.values():
+        if f.crate != 'owning_iovec' or f.d.get('derived'):
+            continue
+        for pos, pl, rv in f.stores():
+            if pl['p'] and pl['p'][-1]['k'] == 'field' and pl['p'][-1]['n'] == 'count' and pl['p'][-1].get('adt') == an['key']:
+                cw.add(f.name)
+    cx.check(cw <= {AN + '::increment_count', AN + '::decrement_count', AN + '::merge_ref_or_create'} and cw, 'count-writers', None, '%s:%s' % (an['file'], an['line']),
+             'Anchor.count is written only by increment_count / decrement_count / merge_ref_or_create', fail_detail='Anchor.count written in %s' % sorted(cw))
+    mc = [(pos, mr.rvalue_expr(rv).strip()) for pos, pl, rv in mr.stores() if pl['p'] and pl['p'][-1].get('n') == 'count' and rv is not None]
+    okmc = len(mc) == 1 and mc[0][1].kind == 'binop' and mc[0][1].op == 'Add' and mc[0][1].b.is_const_int(1) and \
+        any(v is True and is_call(e, AN + '::is_same_chunk') for e, v, ed in mr.facts_at(mc[0][0].bb))
+    cx.check(okmc, 'merge-same-chunk-only', mr, None, 'merge_ref_or_create bumps an existing anchor only on the is_same_chunk edge', fail_detail='an existing anchor is reused for a different chunk')
     ch = prog.adt(CH)
     cx.check(all(not f['vis'].startswith('Public') for f in ch['variants'][0]['fields']), 'chunk-private', None, '%s:%s' % (ch['file'], ch['line']), 'Chunk fields are private')
 
 
-RULES = [('R5.1', r5_1), ('R5.2', r5_2), ('R5.3', r5_3), ('R5.4', r5_4), ('R5.6', r5_6), ('R5.7', r5_7), ('R5.8', r5_8)]
+def r5_9(cx):
+    """distinct allocations never overlap: allocation caches are never shared or duplicated (R20.1, bump writers of R20.2)"""
+    from . import c20
+    sub = cx.__class__(cx.prog, cx.profile, cx.prop)
+    for rid, f in (('R20.1', c20.r20_1), ('R20.2', c20.r20_2)):
+        sub.rule = rid
+        f(sub)
+    for rec in sub.records:
+        if rec['instance'].startswith('R5.6:'):
+            continue
+        rec = dict(rec)
+        rec['instance'] = rec['rule'] + ':' + rec['instance']
+        rec['rule'] = cx.rule
+        cx.records.append(rec)
+
+
+RULES = [('R5.1', r5_1), ('R5.2', r5_2), ('R5.3', r5_3), ('R5.4', r5_4), ('R5.6', r5_6), ('R5.7', r5_7), ('R5.8', r5_8), ('R5.9', r5_9)]
